@@ -243,6 +243,14 @@ pub fn generate(seed: u64, tier: &str, sink: &mut Sink) {
         cfgs.push(Cfg { mapped: vec![], addrs: vec![(true, 'b'), (false, 'b'), (false, 'a')], deadline_ms: None, ct_ms: 300 });
         cfgs.push(Cfg { mapped: vec![], addrs: vec![(true, 'b'), (false, 'b'), (true, 'b'), (false, 'a')], deadline_ms: None, ct_ms: 500 });
         cfgs.push(Cfg { mapped: vec![], addrs: vec![(true, 'r'), (false, 'b'), (true, 'b'), (false, 'a')], deadline_ms: Some(5000), ct_ms: 300 });
+        // an overall deadline nearer than one race interval: a refusing address still costs next to nothing, the
+        // address behind it is tried at once and accepts (seed C17-seed12: only the first address tried when the
+        // deadline is within 200 ms)
+        for d in [190u64, 150, 90] {
+            cfgs.push(Cfg { mapped: vec![], addrs: vec![(true, 'r'), (false, 'a')], deadline_ms: Some(d), ct_ms: CONNECT_TIMEOUT_MS });
+            cfgs.push(Cfg { mapped: vec![], addrs: vec![(false, 'r'), (false, 'a')], deadline_ms: Some(d), ct_ms: CONNECT_TIMEOUT_MS });
+            cfgs.push(Cfg { mapped: vec![], addrs: vec![(true, 'r'), (true, 'r'), (false, 'a')], deadline_ms: Some(d), ct_ms: CONNECT_TIMEOUT_MS });
+        }
         // an overall deadline that has already expired when the race starts (seed C17-seed6)
         for a in [
             vec![(true, 'a'), (false, 'a')],
@@ -351,7 +359,8 @@ pub fn generate(seed: u64, tier: &str, sink: &mut Sink) {
         let o: Result<(), (String, String)> = (|| {
             // a deadline that is shorter than the race can legitimately cut attempts: only judge the
             // iff for generous deadlines
-            let generous = cfg.deadline_ms.map_or(true, |d| d >= 3000);
+            // (…and a refusal takes no time: without a black hole among the addresses a deadline of 60 ms is generous)
+            let generous = cfg.deadline_ms.map_or(true, |d| d >= 3000 || (d >= 60 && cfg.addrs.iter().all(|a| a.1 != 'b')));
             if generous {
                 if any_accept && obs.winner.is_none() {
                     return Err(("missed-reachable-address".into(), format!("{:?}: {} after {} ms", spec, obs.line, obs.elapsed_ms)));
